@@ -380,6 +380,50 @@ func (x *Exec) callArgValues(c *ssa.CallCommon) []ssa.Value {
 	return c.Args
 }
 
+// immutableArr: is the heap map that of a field declared immutable?
+func (x *Exec) immutableArr(name string) bool {
+	if !strings.HasPrefix(name, "H$") {
+		return false
+	}
+	if x.immutNames == nil {
+		x.immutNames = map[string]bool{}
+		for k, ts := range x.w.specs.Types {
+			i := strings.LastIndex(k, "/")
+			short := k[i+1:]
+			if strings.HasPrefix(k, modulePath+"/") {
+				short = k[len(modulePath)+1:]
+				short = strings.ReplaceAll(short, "/", ".")
+				// typeKey uses the package NAME: last path element
+				j := strings.LastIndex(k, "/")
+				short = k[j+1:]
+			}
+			for _, f := range ts.Immutable {
+				x.immutNames["H$"+sanitize(short)+"$"+f+"$"] = true
+			}
+		}
+	}
+	for pfx := range x.immutNames {
+		if strings.HasPrefix(name, pfx) {
+			return true
+		}
+	}
+	return false
+}
+
+// havocArr: a fresh version of a heap map. Maps of immutable fields keep the entries of all
+// objects that existed before (only objects allocated meanwhile may differ).
+func (x *Exec) havocArr(st *State, n string, s *Sort, prefix string) {
+	x.heapVar(n, s)
+	old := x.heapGet(st, n, s)
+	nv := x.vc.Declare(n+"@"+prefix, s)
+	st.heap[n] = nv
+	if x.rootSpec != nil && !x.rootSpec.Implicit && x.immutableArr(n) && s.K == SArr && s.Key.K == SRef {
+		x.birth()
+		q := fmt.Sprintf("q!r!%d", x.nextID())
+		x.assumeIn(st, "(forall (("+q+" Int)) (! (=> (<= (birth "+q+") "+st.now+") (= (select "+nv+" "+q+") (select "+old+" "+q+"))) :pattern ((select "+nv+" "+q+"))))")
+	}
+}
+
 // havoc replaces everything in ms by unconstrained values.
 func (x *Exec) havoc(fr *Frame, st *State, ms *ModSet, prefix string) {
 	for _, id := range sortedInts(ms.cells) {
@@ -401,14 +445,13 @@ func (x *Exec) havoc(fr *Frame, st *State, ms *ModSet, prefix string) {
 			if strings.HasPrefix(n, "G$") {
 				continue
 			}
-			st.heap[n] = x.vc.Declare(n+"@"+prefix, x.heapSorts[n])
+			x.havocArr(st, n, x.heapSorts[n], prefix)
 		}
 		x.havocAllSeen = true
 	}
 	for _, n := range sortedKeys(ms.heap) {
 		s := ms.heap[n]
-		x.heapVar(n, s)
-		st.heap[n] = x.vc.Declare(n+"@"+prefix, s)
+		x.havocArr(st, n, s, prefix)
 	}
 	for _, n := range sortedKeys(ms.cellPts) {
 		cs := ms.cellPts[n]
@@ -424,8 +467,7 @@ func (x *Exec) havoc(fr *Frame, st *State, ms *ModSet, prefix string) {
 			}
 		}
 		if _, whole := ms.heap[n]; whole {
-			x.heapVar(n, ms.psort[n])
-			st.heap[n] = x.vc.Declare(n+"@"+prefix, ms.psort[n])
+			x.havocArr(st, n, ms.psort[n], prefix)
 			continue
 		}
 		for _, c := range cs {
@@ -695,7 +737,7 @@ func (x *Exec) execCall(fr *Frame, st *State, instr ssa.Instruction, c *ssa.Call
 			return
 		}
 		if spec == nil {
-			if x.safety && !(x.rootSpec != nil && x.rootSpec.NoNil) {
+			if x.chk("nilfunc") {
 				x.obligeIn(st, "nilfunc", x.srcText(instr), not(eq(fv.One(), "0")), "")
 			}
 		}
@@ -1425,3 +1467,36 @@ func (x *Exec) checkLocksBalanced(fr *Frame, st *State) {
 }
 
 func inMod(pkg, mod string) bool { return pkg == mod || strings.HasPrefix(pkg, mod+"/") }
+
+// checkImmutable: a store to a field declared immutable must hit an object created by the
+// current activation (still private to it).
+func (x *Exec) checkImmutable(fr *Frame, st *State, a Addr, in ssa.Instruction) {
+	if x.rootSpec == nil || !x.rootSpec.ImmutChk || a.K != AKField {
+		return
+	}
+	n, ok := a.ST.(*types.Named)
+	if !ok || n.Obj().Pkg() == nil {
+		return
+	}
+	ts, ok := x.w.specs.Types[n.Obj().Pkg().Path()+"."+n.Obj().Name()]
+	if !ok {
+		return
+	}
+	fname := a.ST.Underlying().(*types.Struct).Field(a.Field).Name()
+	for _, f := range ts.Immutable {
+		if f == fname {
+			x.birth()
+			goal := "(> (birth " + a.Ref + ") " + x.entryNow + ")"
+			root := fr
+			for root.caller != nil {
+				root = root.caller
+			}
+			for _, p := range x.rootSpec.UnderConstruction {
+				if v, ok := root.params[p]; ok && len(v.L) == 1 {
+					goal = or(goal, eq(a.Ref, v.L[0]))
+				}
+			}
+			x.obligeIn(st, "immutable", "store to "+n.Obj().Name()+"."+fname+" only on an object created here: "+x.srcText(in), goal, "")
+		}
+	}
+}
